@@ -64,8 +64,19 @@ def _like_half(x):
     return -np.inf if x[0] < -3.5 else -0.5 * float(np.sum(x ** 2))
 
 
+def _like_bimodal(x):
+    # two well separated modes: with clustering on, the hierarchical model accepts a 2-component split, whose fit is the
+    # only clustering step that draws random numbers (the k-means++ start of a 2-component mixture)
+    a = -0.5 * float(np.sum((x - 2.0) ** 2)) / 0.09
+    b = -0.5 * float(np.sum((x + 2.0) ** 2)) / 0.09
+    return float(np.logaddexp(a, b))
+
+
 def _sampler(clustering, kernel, resample, random_state=None, like=None, d=2, **kw):
     from tempest import Sampler
+    if like is None and clustering:
+        like = _like_bimodal
+        kw.setdefault("n_particles", 48)
     return Sampler(lambda u: 8.0 * u - 4.0, like or (lambda x: -0.5 * float(np.sum((x - 0.3) ** 2)) * 2.0), d,
                    n_particles=kw.pop("n_particles", 24), clustering=clustering, sample=kernel, resample=resample,
                    random_state=random_state, n_steps=1, n_max_steps=2, **kw)
@@ -80,6 +91,8 @@ def _fingerprint(s):
 
 
 def _run(s, n_total=48):
+    if s.clustering:
+        n_total = 192
     with _quiet(), warnings.catch_warnings():
         warnings.simplefilter("ignore")
         s.run(n_total=n_total, progress=False)
